@@ -193,8 +193,12 @@ class Harness:
                 except Exception as e:
                     r2 = dict(chk=None, goal=None, oracle_ok=False, oracle_msg=f"raised {type(e).__name__}: {e}")
                 ng = lambda g: None if g is None else re.sub(r"\b(G|case_)\d+\b", r"\1#", g)   # running counters in goal names
-                a1 = (c["chk"], ng(c["goal"]), c["oracle_ok"])
-                a2 = (r2.get("chk"), ng(r2.get("goal")), bool(r2.get("oracle_ok", True)))
+                na = lambda t: None if t is None else re.sub(r"0x[0-9a-fA-F]{6,}", "0x#", t)      # memory addresses in reprs
+                a1 = (na(c["chk"]), ng(c["goal"]), c["oracle_ok"])
+                a2 = (na(r2.get("chk")), ng(r2.get("goal")), bool(r2.get("oracle_ok", True)))
+                if any(isinstance(t, str) and "Timeout" in t for t in (a1[0], a2[0], c["oracle_msg"], str(r2.get("oracle_msg", "")))):
+                    hist["rerun-timeout-skipped"] = hist.get("rerun-timeout-skipped", 0) + 1     # a wall-clock guard fired:
+                    continue                                                                       # not an answer of the code
                 hist["rerun"] = hist.get("rerun", 0) + 1
                 if a1 != a2:
                     what = "chk" if a1[0] != a2[0] else ("goal" if a1[1] != a2[1] else "oracle verdict")
